@@ -92,6 +92,24 @@ CAUGHT = {
  "C17-5": ("C17", "blocking_removal_never_returns, crash:Segmentation_fault", "(same idea as C17-1 / C17-3, in BackendWorker)"),
  "C17-6": ("C17", "sink_lookup_not_idempotent", "missed at first; caught after a sink-name history through the registry was added (reference kept past a blocking removal, dropped, name created again, looked up)"),
  "C17-7": ("C17", "csv_file_differs_after_the_writer_was_destroyed, crash:Aborted (quill's valid-logger assert)", "missed at first; caught after CsvWriter scopes on a user-supplied sink that the user keeps referencing were added (re-created at once under the same name)"),
+ "C18-5": ("C18", "backtrace_replay_differs_from_model, backtrace_flush_replayed_wrong_number_of_statements", "(same mechanism as C18-1)"),
+ "C18-6": ("C18", "backtrace_replay_differs_from_model", "(same mechanism as C18-2 / C18-3)"),
+ "C18-7": ("C18", "backtrace_replay_differs_from_model", "missed at first; caught after WARNING / ERROR / CRITICAL statements were logged while the flush level is None (also after a re-initialisation from another level)"),
+ "C09-5": ("C09", "reservation_refused_although_queue_empty_and_consumer_idle, blocked_log_call_never_resumes", "(same mechanism as C09-4)"),
+ "C09-6": ("C09", "blocked_log_call_never_resumes, fitting_statement_dropped_on_empty_queue", "(a variant of C09-3)"),
+ "C09-7": ("C09", "reservation_refused_although_queue_empty_and_consumer_idle, blocked_log_call_never_resumes", ""),
+ "C05-5": ("C05", "delivery:lost, timestamp_order_inversion", "(same mechanism as C20-2)"),
+ "C05-6": ("C05", "timestamp_order_inversion", ""),
+ "C05-7": ("C05", "timestamp_is_not_the_clock_value_read_at_the_start_of_the_call", "missed at first (the judge only demanded a timestamp from within the call); caught after a seam recorded the first wall clock value a thread reads inside a log call, which a system-clock statement must carry exactly — also when the call then waits for room"),
+ "C20-5": ("C20", "delivery:lost", "(same mechanism as C20-2)"),
+ "C20-6": ("C20", "thread_contexts_not_reclaimed", "(same mechanism as C20-1)"),
+ "C20-7": ("C20", "shrink_did_not_take_effect", "missed at first; caught after C20 also ran on UnboundedDropping frontends"),
+ "C07-5": ("C07", "completed_statement_missing_after_exit, statement_missing_after_stop", "(same mechanism as C20-2, reached through the exit drain)"),
+ "C07-6": ("C07", "handler_notice_missing, statement_of_signalled_thread_missing, wrong_exit_status", "(same mechanism as C07-2)"),
+ "C07-7": ("C07", "completed_statement_missing_after_exit, statement_missing_after_stop", "(same mechanism as C03-1)"),
+ "C04-5": ("C04", "message_differs_from_call_site_formatting typed_site=102", "(same mechanism as C04-2)"),
+ "C04-6": ("C04", "message_differs_from_call_site_formatting typed_site=155/156", "missed at first; caught after call sites with ordered containers under user-chosen orderings (std::greater<>, a user comparator) were added"),
+ "C04-7": ("C04", "crash:Aborted (quill's size asserts), crash:Bus_error", "(same mechanism as C04-1)"),
  "C07-2": ("C07", "handler_notice_missing, statement_of_signalled_thread_missing, wrong_exit_status", "missed at first; caught after a second delivery of the same signal to another thread was added to C07 programs (and pause() interposed)"),
  "C11-1": ("C11", "steady_state_log_call_allocated typed_site=144/145/146", "missed at first; caught after call sites with more than twelve string values in one statement were added"),
  "C11-2": ("C11", "steady_state_log_call_allocated typed_site=130", ""),
